@@ -4,7 +4,7 @@ C17 — Triggers fire at most once, in order, atomically, with their creators' a
 All theorems are about the executable model `PvModel.Trig` (tied to x/trigger of /repo by the
 correspondence stream `trig`).  "History" = any list of operations (`Op`): account funding, bank
 sends, `MsgCreateTriggerRequest` / `MsgDestroyTriggerRequest` transactions, BeginBlocks
-(`ProcessTriggers`, with an arbitrary oracle saying which action of which trigger runs out of gas)
+(`ProcessTriggers`, with an arbitrary oracle saying how much gas each action of each trigger consumes)
 and EndBlocks (`DetectBlockEvents`, with arbitrary ABCI event histories, heights and times), in
 any order and number, starting from the default genesis.  `run State.init ops = (s, log)` gives the
 final store `s` and the log of what every operation did.
@@ -15,7 +15,8 @@ Property clauses and the theorems that carry them
 * first detected, first run .......... `fifo_order`, `executed_is_prefix_of_detected`, `queue_is_a_fifo_list`
 * all or nothing ..................... `actions_all_or_nothing`, `block_effects_only_from_successful_triggers`,
                                        `balances_all_or_nothing`
-* gas prepaid, per-block caps ........ `gas_limit_capped_and_prepaid`, `per_block_caps`, `executed_gas_is_stored_limit`
+* gas prepaid, per-block caps ........ `gas_limit_capped_and_prepaid`, `per_block_caps`, `executed_gas_is_stored_limit`,
+                                       `actions_run_within_prepaid_gas`, `exceeding_prepaid_gas_fails_as_a_whole`
 * creators' authority ................ `created_actions_signed_by_authorities`, `executed_actions_were_authorised`
 * exactly one place .................. `never_waiting_and_queued`, `never_queued_twice`, `place_only_moves_forward`,
                                        `gone_is_forever`, `listeners_exactly_registered`,
@@ -26,7 +27,7 @@ Property clauses and the theorems that carry them
 * supporting (not clauses of C17) ..... `begin_block_never_panics`, `end_block_never_panics_with_clean_buckets`
 * observations outside C17's clauses .. `…_observation` (see observations/C17.md)
 -/
-import PvProofs.Lemmas.TrigMisc
+import PvProofs.Lemmas.TrigGas
 
 namespace PvProofs.C17
 open PvModel.Trig PvProofs.Lemmas.Trig
@@ -59,12 +60,12 @@ theorem detected_at_most_once (ops : List Op) : (detectedIds (run State.init ops
 /-- After any history, whatever the next BeginBlock executes was detected by an EndBlock of that
 history (so in an earlier block: BeginBlock precedes EndBlock inside a block), is distinct from
 everything executed before, and is the front of the queue in order. -/
-theorem fires_only_after_detection (ops : List Op) (oog : Nat → Nat → Bool) (s' : State) (xs : List Exec)
-    (h : processTriggers (run State.init ops).1 oog = some (s', xs)) :
+theorem fires_only_after_detection (ops : List Op) (cost : Nat → Nat → Nat) (s' : State) (xs : List Exec)
+    (h : processTriggers (run State.init ops).1 cost = some (s', xs)) :
     (∀ x ∈ xs, x.id ∈ detectedIds (run State.init ops).2 ∧ x.id ∉ executedIds (run State.init ops).2) ∧
     xs.map (·.id) <+: qIds (run State.init ops).1 := by
   have hi := HInv_reach ops
-  obtain ⟨s2, xs2, hp, _, hql, hids, _⟩ := processLoop_spec oog MaximumActions 0 _ hi.wf
+  obtain ⟨s2, xs2, hp, _, hql, hids, _⟩ := processLoop_spec cost MaximumActions 0 _ hi.wf
   unfold processTriggers at h
   rw [hp] at h; cases h
   have hq : qIds (run State.init ops).1 = xs.map (·.id) ++ qIds s' := by
@@ -121,21 +122,21 @@ theorem actions_all_or_nothing (s : State) (acts : List Action) (oog : Nat → B
 /-- What a BeginBlock leaves behind depends only on which triggers succeeded: it is the store in
 which every executed trigger was dequeued and lost its gas limit, the successful ones applied all
 their actions, and the failed ones applied nothing (`replay`). -/
-theorem block_effects_only_from_successful_triggers (ops : List Op) (oog : Nat → Nat → Bool)
-    (s' : State) (xs : List Exec) (h : processTriggers (run State.init ops).1 oog = some (s', xs)) :
+theorem block_effects_only_from_successful_triggers (ops : List Op) (cost : Nat → Nat → Nat)
+    (s' : State) (xs : List Exec) (h : processTriggers (run State.init ops).1 cost = some (s', xs)) :
     s' = replay (run State.init ops).1 xs := by
   obtain ⟨s2, xs2, hp, _, _, _, _, _, _, _, _, _, _, hrep, _⟩ :=
-    processLoop_spec oog MaximumActions 0 _ (HInv_reach ops).wf
+    processLoop_spec cost MaximumActions 0 _ (HInv_reach ops).wf
   unfold processTriggers at h
   rw [hp] at h; cases h; exact hrep
 
 /-- The balances after a BeginBlock are the all-or-nothing reference `expectedBal` (the function the
 checker evaluates on the implementation's output). -/
-theorem balances_all_or_nothing (ops : List Op) (oog : Nat → Nat → Bool)
-    (s' : State) (xs : List Exec) (h : processTriggers (run State.init ops).1 oog = some (s', xs)) :
+theorem balances_all_or_nothing (ops : List Op) (cost : Nat → Nat → Nat)
+    (s' : State) (xs : List Exec) (h : processTriggers (run State.init ops).1 cost = some (s', xs)) :
     s'.bal = expectedBal (run State.init ops).1.bal xs := by
   obtain ⟨s2, xs2, hp, _, _, _, _, _, _, _, _, _, _, _, hbal, _⟩ :=
-    processLoop_spec oog MaximumActions 0 _ (HInv_reach ops).wf
+    processLoop_spec cost MaximumActions 0 _ (HInv_reach ops).wf
   unfold processTriggers at h
   rw [hp] at h; cases h; exact hbal
 
@@ -152,10 +153,10 @@ theorem gas_limit_capped_and_prepaid (s s' : State) (m : CreateMsg) (rem h tm id
 
 /-- Per BeginBlock, for every store whatsoever: at most `MaximumActions` triggers run and their gas
 limits sum to at most `MaximumQueueGas`. -/
-theorem per_block_caps (s s' : State) (oog : Nat → Nat → Bool) (xs : List Exec)
-    (h : processTriggers s oog = some (s', xs)) :
+theorem per_block_caps (s s' : State) (cost : Nat → Nat → Nat) (xs : List Exec)
+    (h : processTriggers s cost = some (s', xs)) :
     xs.length ≤ MaximumActions ∧ (xs.map (·.gas)).sum ≤ MaximumQueueGas := by
-  obtain ⟨h1, h2⟩ := processLoop_caps oog MaximumActions 0 s s' xs h
+  obtain ⟨h1, h2⟩ := processLoop_caps cost MaximumActions 0 s s' xs h
   refine ⟨h1, ?_⟩
   by_cases hx : xs = []
   · subst hx; simp
@@ -163,14 +164,50 @@ theorem per_block_caps (s s' : State) (oog : Nat → Nat → Bool) (xs : List Ex
 
 /-- The gas a trigger is run with is the limit stored for it (hence prepaid and capped), and the
 actions run are the stored trigger's actions. -/
-theorem executed_gas_is_stored_limit (ops : List Op) (oog : Nat → Nat → Bool) (s' : State) (xs : List Exec)
-    (h : processTriggers (run State.init ops).1 oog = some (s', xs)) :
+theorem executed_gas_is_stored_limit (ops : List Op) (cost : Nat → Nat → Nat) (s' : State) (xs : List Exec)
+    (h : processTriggers (run State.init ops).1 cost = some (s', xs)) :
     ∀ x ∈ xs, (run State.init ops).1.gasLimits x.id = some x.gas ∧ x.gas ≤ MaximumTriggerGas := by
   have hw := (HInv_reach ops).wf
-  obtain ⟨s2, xs2, hp, _, _, _, _, _, _, _, _, _, hgl, _⟩ := processLoop_spec oog MaximumActions 0 _ hw
+  obtain ⟨s2, xs2, hp, _, _, _, _, _, _, _, _, _, hgl, _⟩ := processLoop_spec cost MaximumActions 0 _ hw
   unfold processTriggers at h
   rw [hp] at h; cases h
   exact fun x hx => ⟨hgl x hx, hw.gasCap _ _ (hgl x hx)⟩
+
+/-- The actions of a trigger run on ONE gas meter of the limit it was run with (the stored, prepaid
+one: `executed_gas_is_stored_limit`): for every store and every gas-consumption oracle, what the
+actions that ran to their end consumed together is within that limit (`withinPrepaid`, the function
+the checker evaluates on the implementation's observed consumption); a trigger succeeds only if all
+its actions together fit; one whose actions together need more than the limit fails. -/
+theorem actions_run_within_prepaid_gas (s s' : State) (cost : Nat → Nat → Nat) (xs : List Exec)
+    (h : processTriggers s cost = some (s', xs)) :
+    ∀ x ∈ xs, withinPrepaid x.gas (cost x.id) x.outcomes = true ∧
+      (x.success = true → prefixCost (cost x.id) x.actions.length ≤ x.gas) ∧
+      (x.gas < prefixCost (cost x.id) x.actions.length → x.success = false) := by
+  intro x hx
+  obtain ⟨h1, h2⟩ := processLoop_gas cost MaximumActions 0 s s' xs h x hx
+  refine ⟨by simpa [withinPrepaid] using h1, h2, fun hlt => ?_⟩
+  cases hsx : x.success with
+  | false => rfl
+  | true => have := h2 hsx; omega
+
+/-- A trigger whose actions together consume more than its prepaid gas fails as a whole — however
+the consumption is spread over the actions, in particular when every single action would fit the
+limit on its own: no action takes effect. -/
+theorem exceeding_prepaid_gas_fails_as_a_whole (s : State) (acts : List Action) (limit : Nat)
+    (cost : Nat → Nat) (h : limit < prefixCost cost acts.length) :
+    (runActions s acts (gasOog limit cost)).1 = false ∧ (runActions s acts (gasOog limit cost)).2.2 = s := by
+  have hg := (runActions_gas s acts limit cost).2
+  rcases runActions_spec s acts (gasOog limit cost) with ⟨a, _⟩ | ⟨a, b, _⟩
+  · have := hg a; omega
+  · exact ⟨a, b⟩
+
+/-- non-vacuity: two sends of 7 000 gas each on 10 000 prepaid gas — each fits alone, together they
+do not; the second is cut off, nothing moves -/
+example : let s := (run State.init [.fund "A" 10]).1
+    let r := runActions s [.send "A" "B" 1, .send "A" "C" 1] (gasOog 10000 (fun _ => 7000))
+    (r.1, r.2.1, r.2.2.bal "A", r.2.2.bal "B") = (false, [.ok, .oog], 10, 0) ∧
+    gasOog 10000 (fun _ => 7000) 0 = false := by
+  decide
 
 /-! ## creators' authority -/
 
@@ -213,12 +250,12 @@ theorem stored_triggers_were_authorised : ∀ (ops : List Op) (s : State) (log :
 /-- The actions a BeginBlock runs for a trigger are the action list of a create transaction of the
 history that passed `ValidateBasic`; each action's required signers were authorities (signers) of
 that transaction. -/
-theorem executed_actions_were_authorised (ops : List Op) (oog : Nat → Nat → Bool) (s' : State)
-    (xs : List Exec) (h : processTriggers (run State.init ops).1 oog = some (s', xs)) :
+theorem executed_actions_were_authorised (ops : List Op) (cost : Nat → Nat → Nat) (s' : State)
+    (xs : List Exec) (h : processTriggers (run State.init ops).1 cost = some (s', xs)) :
     ∀ x ∈ xs, ∃ m rem hh tm, Op.create m rem hh tm ∈ ops ∧ m.validateBasic = .ok () ∧
       x.actions = m.actions ∧ signersCovered m = true := by
   have hi := HInv_reach ops
-  obtain ⟨s2, xs2, hp, _, hql, hids, hacts, hlen, _⟩ := processLoop_spec oog MaximumActions 0 _ hi.wf
+  obtain ⟨s2, xs2, hp, _, hql, hids, hacts, hlen, _⟩ := processLoop_spec cost MaximumActions 0 _ hi.wf
   unfold processTriggers at h
   rw [hp] at h; cases h
   intro x hx
@@ -365,12 +402,12 @@ theorem gone_never_fires : ∀ (more : List Op) (s : State) (log : List Out), HI
 /-- After any history, if the queue is not empty the next BeginBlock runs at least its head: a
 stored gas limit never exceeds `MaximumTriggerGas = MaximumQueueGas`, so the head always fits an
 empty block. -/
-theorem head_always_fits (ops : List Op) (oog : Nat → Nat → Bool)
+theorem head_always_fits (ops : List Op) (cost : Nat → Nat → Nat)
     (hq : (run State.init ops).1.qLen ≠ 0) :
-    ∃ s' x xs, processTriggers (run State.init ops).1 oog = some (s', x :: xs) ∧
+    ∃ s' x xs, processTriggers (run State.init ops).1 cost = some (s', x :: xs) ∧
       (qIds (run State.init ops).1).head? = some x.id := by
   obtain ⟨s', xs, hp, _, hql, hids, _, _, _, _, _, _, _, _, _, hlive⟩ :=
-    processLoop_spec oog MaximumActions 0 _ (HInv_reach ops).wf
+    processLoop_spec cost MaximumActions 0 _ (HInv_reach ops).wf
   have hne := hlive hq (by decide) rfl
   cases xs with
   | nil => exact absurd rfl hne
@@ -392,9 +429,9 @@ theorem queued_trigger_runs_within_its_position (ops more : List Op) (pre post :
 
 /-- After any history, `ProcessTriggers` does not panic (no missing queue item, no missing gas
 limit), whatever runs out of gas. -/
-theorem begin_block_never_panics (ops : List Op) (oog : Nat → Nat → Bool) :
-    (processTriggers (run State.init ops).1 oog).isSome = true := by
-  obtain ⟨s', xs, hp, _⟩ := processLoop_spec oog MaximumActions 0 _ (HInv_reach ops).wf
+theorem begin_block_never_panics (ops : List Op) (cost : Nat → Nat → Nat) :
+    (processTriggers (run State.init ops).1 cost).isSome = true := by
+  obtain ⟨s', xs, hp, _⟩ := processLoop_spec cost MaximumActions 0 _ (HInv_reach ops).wf
   unfold processTriggers; rw [hp]; rfl
 
 /-- After any history, `DetectBlockEvents` does not panic provided no registered trigger sits in the
@@ -443,19 +480,20 @@ theorem a_later_matching_event_is_missed_observation :
 /-- OBSERVATION, outside C17's clauses; see observations/ (trigger.go:132, event_detector.go:80-88): a block-time trigger far enough in the
 future (after the year 2554) gets a wrapped-around `uint64` nanosecond order, sorts before every
 sane time trigger, and the iteration's terminator stops at it: no time trigger is detected any
-more.  Trigger 2 (due at 1700000005) is not detected at time 1700000010 while trigger 1 exists. -/
+more.  Trigger 2 (due at 1700000005 s) is not detected at time 1700000010 s while trigger 1 exists
+(times in nanoseconds). -/
 theorem a_far_future_time_trigger_blocks_all_time_triggers_observation :
-    let ops := [ Op.create ⟨["A"], .time 20000000000, [.send "A" "B" 1]⟩ 500000 10 1700000000,
-                 Op.create ⟨["B"], .time 1700000005, [.send "B" "A" 1]⟩ 500000 10 1700000000,
-                 Op.endBlock [] 11 1700000010 ]
+    let ops := [ Op.create ⟨["A"], .time 20000000000000000000, [.send "A" "B" 1]⟩ 500000 10 1700000000000000000,
+                 Op.create ⟨["B"], .time 1700000005000000000, [.send "B" "A" 1]⟩ 500000 10 1700000000000000000,
+                 Op.endBlock [] 11 1700000010000000000 ]
     (run State.init ops).2 = [.created 1 497490, .created 2 497490, .detected []] ∧
-    conditionMet (.time 1700000005) [] 11 1700000010 = true := by
+    conditionMet (.time 1700000005000000000) [] 11 1700000010000000000 = true := by
   decide
 
 /-! ## non-vacuity: concrete histories exercising the hypotheses above -/
 
 /-- A small history: two triggers for height 11 (the first sends twice, the second send is
-unaffordable; the second trigger runs out of gas in the oracle), detected at height 11, executed in
+unaffordable; the second trigger's only action needs more than its 490 prepaid gas), detected at height 11, executed in
 the next BeginBlock in detection order; the failed ones leave the balances untouched. -/
 def demo : List Op :=
   [ .fund "A" 10,
@@ -474,19 +512,30 @@ example : qIds (run State.init demo).1 = [1, 2, 3] := by decide
 
 /-- the next BeginBlock runs 1 (fails at its second action) and 2 (out of gas), and stops at 3 whose
 2 000 000 gas no longer fits; 3 runs alone in the block after -/
-example : (processTriggers (run State.init demo).1 (fun id i => id == 2 && i == 0)).map (·.2) =
+example : (processTriggers (run State.init demo).1 (fun id _ => if id = 2 then 7630 else 5000)).map (·.2) =
     some [⟨1, 497490, false, [.ok, .err], [.send "A" "B" 3, .send "A" "B" 100]⟩,
           ⟨2, 490, false, [.oog], [.send "B" "A" 1]⟩] := by
   decide
 
-example : (run State.init (demo ++ [.beginBlock (fun id i => id == 2 && i == 0), .beginBlock (fun _ _ => false)])).2.drop 5 =
+example : (run State.init (demo ++ [.beginBlock (fun id _ => if id = 2 then 7630 else 5000), .beginBlock (fun _ _ => 5000)])).2.drop 5 =
     [.executed [⟨1, 497490, false, [.ok, .err], [.send "A" "B" 3, .send "A" "B" 100]⟩,
                 ⟨2, 490, false, [.oog], [.send "B" "A" 1]⟩],
      .executed [⟨3, 2000000, true, [.ok], [.send "A" "C" 4]⟩]] := by
   decide
 
-example : let s := (run State.init (demo ++ [.beginBlock (fun id i => id == 2 && i == 0), .beginBlock (fun _ _ => false)])).1
+example : let s := (run State.init (demo ++ [.beginBlock (fun id _ => if id = 2 then 7630 else 5000), .beginBlock (fun _ _ => 5000)])).1
     (s.bal "A", s.bal "B", s.bal "C") = (6, 0, 4) := by
+  decide
+
+/-- times are full timestamps (nanoseconds): a trigger for T+0.9 s created in the block at T+0.2 s
+is not detected by that block nor by the one at T+0.6 s — same second, condition not met — and is
+detected by the block at T+1.1 s -/
+example : (run State.init
+    [ .create ⟨["A"], .time 1700000000900000000, [.send "A" "B" 1]⟩ 500000 10 1700000000200000000,
+      .endBlock [] 10 1700000000200000000, .endBlock [] 11 1700000000600000000,
+      .endBlock [] 12 1700000001100000000 ]).2 =
+    [.created 1 497490, .detected [], .detected [],
+     .detected [⟨1, "A", .time 1700000000900000000, [.send "A" "B" 1]⟩]] := by
   decide
 
 /-- the owner can destroy only while waiting: trigger 1 of `demo` is queued — rejected; a fresh one is
